@@ -70,6 +70,16 @@ CLAIMS = {
         text="Static decision of the bookkeeping that makes results history-independent: name registries move in lock-step, the input-order registry holds indices and is updated with every link, index-hole-safe vector sizes, nothing carried from row to row, caches rebuilt unconditionally before every analysis, and each parameter / limit / per-phase value routed to the column that names it.",
         note=TB + "Not decided: that every report 'succeeds' for every history in the presence of library exceptions; the Domain column of phases() (not part of the statement) is still derived from the topological order.",
         ref="DESIGN.md section 4 C16"),
+    "C17": dict(
+        technique="transitive effect sets of the analyses over the call graph (object state, graph, node payloads); definite-alias store analysis on arguments and module constants with call-site re-classification; try/finally restore pairing",
+        text="Static decision that no analysis writes anything on the System but the caches every analysis rebuilds, that no law method, report helper or diagram function stores into an argument, a definite alias of one or a shared module constant, and that every battery parameter written by batt_life is restored from its saved original in a finally clause enclosing all the writes.",
+        note=TB + "Alias reasoning is definite, not may: a write reaching a shared constant only through a container slot is missed (may-alias would false-alarm on _sys_init). Global state of matplotlib / tqdm is not considered.",
+        ref="DESIGN.md section 4 C17"),
+    "C18": dict(
+        technique="path summary of the depletion-loop body with events in program order: store-before-call ordering, provenance of the callback's arguments, loop-condition / log-guard agreement by propositional implication",
+        text="Static decision of the wiring of the depletion loop only (a minority of the statement): which state is written before the solve, which phase is solved, which duration and current reach the callback, that the phase index advances once after use, that the log append is guarded by the loop condition on the new state and accumulates time, that the log starts with the probed state, and that a non-Source target is rejected first.",
+        note=TB + "Not decided: the values of the currents (the solver's iteration count is dropped by batt_life; observed, no rule armed), strict monotonicity of time (needs duration > 0), termination.",
+        ref="DESIGN.md section 4 C18"),
     "C20": dict(
         category="proof",
         technique="exact rational normal forms of straight-line functions; identities discharged by cross-multiplication",
